@@ -17,7 +17,9 @@ import subprocess
 
 import verif as V
 
-JOBS = int(os.environ.get("VERIF_JOBS", str(V.NCPU)))
+JOBS = int(os.environ.get("VERIF_JOBS", str(V.NCPU)))          # TLC processes in total (trace chunks + design-model runs)
+MODEL_JOBS = max(1, min(4, JOBS // 4))                          # of which: concurrent design-model runs
+TRACE_JOBS = max(1, JOBS - MODEL_JOBS)
 
 ASSUME = [
     "oracle: closed-form / recurrence / Cox-de Boor definitions, exact polynomial algebra and exact sign analysis over rationals (spec/TracePoly.tla); the only inexact step is the square root of the discriminant (enclosure of width 2^-220, its effect is bounded and added to the tolerance)",
@@ -99,7 +101,7 @@ def prog_line(ev):
 def run_models(names, workdir):
     """design model runs (independent of the implementation under test)"""
     res = {}
-    with cf.ThreadPoolExecutor(max(1, min(len(names), JOBS))) as ex:
+    with cf.ThreadPoolExecutor(MODEL_JOBS) as ex:
         futs = {ex.submit(V.run_tlc, "BSearch", n + ".cfg", workdir, None, 1, 3000): n for n in names}
         for f in cf.as_completed(futs):
             n = futs[f]
@@ -122,7 +124,7 @@ def validate(oc, traces, workdir, tier, timeout=3000):
             work.append((cp, first, meta, lines))
     work.sort(key=lambda w: -os.path.getsize(w[0]))
     exh = {}
-    with cf.ThreadPoolExecutor(JOBS) as ex:
+    with cf.ThreadPoolExecutor(TRACE_JOBS) as ex:
         futs = {ex.submit(V.validate_chunk, "TracePoly", "TracePoly.cfg", cp, workdir, timeout): (cp, first, meta, lines)
                 for cp, first, meta, lines in work}
         for f in cf.as_completed(futs):
